@@ -7,7 +7,9 @@
     messages by anybody), starting from the empty store.  [cp tid body est] is the checkpoint
     (keccak of the ABI encoding) and [recover c sg] the signer address recovered from a signature:
     both ARBITRARY functions, nothing is assumed about keccak or secp256k1.  [st_issued] is every
-    value the chain ever published as a stored batch's BytesToSign; [st_archive] the
+    value the chain ever published for signing through ANY channel: stored as a batch's BytesToSign
+    (build, re-estimate) or handed out by a batch query ([OQuery]: LastPendingBatchRequestByAddr,
+    OutgoingTxBatches, BatchRequestByNonce, LastPendingBatchForGasEstimation); [st_archive] the
     PastEthSignatureCheckpoint set.  [code_cfg] says which functions archive and whether the
     evidence handler consults the archive — it is TRANSLATED FROM THE SOURCE on every run
     (Gen.C13), the [eq_refl]s below are where a source that stops archiving stops checking.
@@ -26,7 +28,11 @@ Open Scope Z_scope.
 (** What the model takes from the source, spelled out: if any of this changes the statement no
     longer type-checks by [eq_refl] and the model has to be looked at again. *)
 Theorem model_is_of_current_source :
-  code_cfg = {| c_build_archives := true; c_reissue_archives := true; c_rejects_archived := true; c_set_once := true |} /\
+  code_cfg = {| c_build_archives := true; c_reissue_archives := true; c_rejects_archived := true; c_set_once := true;
+                c_queries_stored := true; c_confirm_recomputes := true |} /\
+  Gen.C13.batch_queries = ["BatchRequestByNonce"; "LastPendingBatchForGasEstimation"; "LastPendingBatchRequestByAddr";
+                           "OutgoingTxBatches"]%string /\
+  Gen.C13.add_evidence_one_entry_per_validator = true /\
   Gen.C13.dummy_gas_estimate = 300000 /\ Gen.C13.estimate_zero_means_dummy = true /\
   Gen.C13.checkpoint_fields =
     ["i.TokenContract.GetAddress()"; "args"; "big.NewInt(int64(i.BatchNonce))"; "turnstoneBytes32";
@@ -34,7 +40,7 @@ Theorem model_is_of_current_source :
   Gen.C13.prune_floor_factor = 10 /\ Gen.C13.prune_floor_strict = true /\
   Gen.C13.undelivered_is_no_public_and_no_error = true /\
   Gen.C13.prune_jails_snapshot_vals_without_evidence = true.
-Proof. exact (conj eq_refl (conj eq_refl (conj eq_refl (conj eq_refl (conj eq_refl (conj eq_refl (conj eq_refl eq_refl))))))). Qed.
+Proof. exact (conj eq_refl (conj eq_refl (conj eq_refl (conj eq_refl (conj eq_refl (conj eq_refl (conj eq_refl (conj eq_refl (conj eq_refl eq_refl))))))))). Qed.
 Print Assumptions model_is_of_current_source.
 
 (** Every checkpoint the chain ever published for signing — at build time or when a gas estimate
@@ -42,7 +48,7 @@ Print Assumptions model_is_of_current_source.
 Theorem issued_subset_archive :
   forall (Sig : Type) (cp : Z -> Z -> Z -> Z) (recover : Z -> Sig -> option addr) (ops : list (op Sig)) (c : Z),
   In c (st_issued (run cp recover code_cfg ops)) -> In c (st_archive (run cp recover code_cfg ops)).
-Proof. exact (fun Sig cp recover => issued_incl_archive cp recover code_cfg eq_refl eq_refl). Qed.
+Proof. exact (fun Sig cp recover => issued_incl_archive cp recover code_cfg eq_refl eq_refl eq_refl). Qed.
 Print Assumptions issued_subset_archive.
 
 (** In particular what a stored batch shows as BytesToSign right now was published (hence archived),
@@ -76,7 +82,7 @@ Theorem honest_signer_never_jailed :
   recover_binding_broken recover sign addr_of.
 Proof.
   exact (fun Sig Key cp recover sign addr_of =>
-           honest_never_jailed_bb cp recover sign addr_of code_cfg eq_refl eq_refl eq_refl).
+           honest_never_jailed_bb cp recover sign addr_of code_cfg eq_refl eq_refl eq_refl eq_refl).
 Qed.
 Print Assumptions honest_signer_never_jailed.
 
@@ -97,7 +103,7 @@ Theorem bad_sig_jails_only_registered_signer_of_unissued :
     In (chain, v, a) (st_reg (run cp recover code_cfg ops)).
 Proof.
   exact (fun Sig cp recover =>
-           bad_sig_jails_registered_signer_of_unissued cp recover code_cfg eq_refl eq_refl eq_refl).
+           bad_sig_jails_registered_signer_of_unissued cp recover code_cfg eq_refl eq_refl eq_refl eq_refl).
 Qed.
 Print Assumptions bad_sig_jails_only_registered_signer_of_unissued.
 
@@ -134,6 +140,66 @@ Theorem without_rearchiving_an_honest_signer_is_jailed :
   ~ recover_binding_broken ex_recover ex_sign ex_addr.
 Proof. exact honest_jailed_without_rearchive. Qed.
 Print Assumptions without_rearchiving_an_honest_signer_is_jailed.
+
+(** Queries are a channel through which the chain asks for signatures.  Whatever one of the batch
+    queries hands out as BytesToSign had been published when the record was written and is archived:
+    reading a query never asks for a signature over anything new ... *)
+Theorem queries_serve_only_archived_checkpoints :
+  forall (Sig : Type) (cp : Z -> Z -> Z -> Z) (recover : Z -> Sig -> option addr) (ops : list (op Sig)) (key c : Z),
+  served_bts cp code_cfg (run cp recover code_cfg ops) key = Some c ->
+  In c (st_issued (run cp recover code_cfg ops)) /\ In c (st_archive (run cp recover code_cfg ops)).
+Proof. exact (fun Sig cp recover => query_serves_issued cp recover code_cfg eq_refl eq_refl eq_refl). Qed.
+Print Assumptions queries_serve_only_archived_checkpoints.
+
+(** ... and why that is needed: were the queries to recompute BytesToSign for the deployment id in
+    force at query time, then after a redeploy the validator that signs what the query gave it is
+    jailed by the replay, with the binding provably intact. *)
+Theorem with_recomputing_queries_an_honest_signer_is_jailed :
+  let s0 := run ex_cp ex_recover recomputing_queries_cfg ex_redeploy_history in
+  let s := step ex_cp ex_recover recomputing_queries_cfg s0 (OQuery 1) in
+  served_bts ex_cp recomputing_queries_cfg s0 1 = Some ex_served_after_redeploy /\
+  In ex_served_after_redeploy (st_issued s) /\ ~ In ex_served_after_redeploy (st_archive s) /\
+  confirm_checks_against ex_cp recomputing_queries_cfg s 1 = Some ex_served_after_redeploy /\
+  uses_only_key ex_addr s 1 5 5 /\
+  newly_jailed s (step ex_cp ex_recover recomputing_queries_cfg s
+                    (OEvidence 1 42 0 (ex_sign 5 ex_served_after_redeploy))) 5 /\
+  ~ recover_binding_broken ex_recover ex_sign ex_addr.
+Proof. exact honest_jailed_with_recomputing_queries. Qed.
+Print Assumptions with_recomputing_queries_an_honest_signer_is_jailed.
+
+(** Issued versus verified (ConfirmBatch verifies against the checkpoint recomputed for the id in
+    force NOW, the queries serve the stored BytesToSign).  They coincide while the id the record was
+    written under is in force -- and every stored BytesToSign is the record's checkpoint under some
+    id ... *)
+Theorem confirm_checks_the_published_checkpoint_while_id_unchanged :
+  forall (Sig : Type) (cp : Z -> Z -> Z -> Z) (recover : Z -> Sig -> option addr) (ops : list (op Sig)) (key : Z) (b : batch),
+  find_batch (st_batches (run cp recover code_cfg ops)) key = Some b ->
+  (exists tid0, b_bts b = cp tid0 (b_body b) (eff_est (b_est b))) /\
+  forall tid0, b_bts b = cp tid0 (b_body b) (eff_est (b_est b)) ->
+    chain_tid (st_chains (run cp recover code_cfg ops)) (b_chain b) = Some tid0 ->
+    confirm_checks_against cp code_cfg (run cp recover code_cfg ops) key = Some (b_bts b) /\
+    served_bts cp code_cfg (run cp recover code_cfg ops) key = Some (b_bts b).
+Proof.
+  exact (fun Sig cp recover ops key b F =>
+    conj (stored_bts_is_a_checkpoint cp recover code_cfg ops b (proj1 (find_batch_in _ _ _ F)))
+         (fun tid0 E T => conj (confirm_checks_published_while_id_unchanged cp recover code_cfg ops key b tid0 F E T)
+                               (f_equal (fun o => match o with Some b => Some (served cp code_cfg (run cp recover code_cfg ops) b) | None => None end) F))).
+Qed.
+Print Assumptions confirm_checks_the_published_checkpoint_while_id_unchanged.
+
+(** ... but NOT across a redeploy, on the code as it is: for a batch that outlives a compass
+    change the published (archived) checkpoint is no longer what ConfirmBatch accepts, and the one
+    it accepts was never published nor archived, so its signer can be jailed by evidence.  No clause
+    of C13 is violated (the chain never asked for that signature); recorded as an observation. *)
+Theorem confirm_after_redeploy_verifies_an_unpublished_checkpoint :
+  let s := run ex_cp ex_recover code_cfg ex_redeploy_history in
+  served_bts ex_cp code_cfg s 1 = Some (ex_cp 7 42 300000) /\
+  confirm_checks_against ex_cp code_cfg s 1 = Some (ex_cp 8 42 300000) /\
+  In (ex_cp 7 42 300000) (st_archive s) /\
+  ~ In (ex_cp 8 42 300000) (st_issued s) /\ ~ In (ex_cp 8 42 300000) (st_archive s) /\
+  newly_jailed s (step ex_cp ex_recover code_cfg s (OEvidence 1 42 0 (ex_sign 5 (ex_cp 8 42 300000)))) 5.
+Proof. exact confirm_after_redeploy_checks_unpublished. Qed.
+Print Assumptions confirm_after_redeploy_verifies_an_unpublished_checkpoint.
 
 (** Pruning.  Whoever is jailed after PruneOldMessages and was not jailed before: there is one
     pruned message that was delivered (public-access or error data), failed consensus, on which at
@@ -221,3 +287,27 @@ Theorem prune_calls_exactly_silent_snapshot_vals :
   prune_calls keqb gk ord sn m = filter (silent m) (map fst (sn_vals sn)).
 Proof. exact (fun K keqb gk ord => prune_calls_complete keqb gk ord). Qed.
 Print Assumptions prune_calls_exactly_silent_snapshot_vals.
+
+(** Re-submitted evidence.  A message's evidence list is built by MsgAddEvidence sent by anybody
+    any number of times ([msg_of_submissions]: Queue.AddEvidence keeps one entry per validator, the
+    shape T checks).  [attested_power sn subs] counts every attester ONCE.  Fewer than 10 % of the
+    snapshot's shares attested -- however often they re-sent -- : pruning jails nobody; and whoever
+    sent evidence at least once (first, later, again, with the same or another proof) is never
+    handed to Jail. *)
+Theorem ten_percent_floor_counts_each_attester_once :
+  forall (K : Type) (keqb : K -> K -> bool) (gk : Z -> Z -> K) (ord : list (@group K) -> list (@group K))
+         (sn : snapshot) (public error : bool) (subs : list evidence),
+  power sn (voters (msg_of_submissions public error subs)) = attested_power sn subs /\
+  (10 * attested_power sn subs < sn_total sn -> prune_calls keqb gk ord sn (msg_of_submissions public error subs) = []).
+Proof.
+  exact (fun K keqb gk ord sn p e subs =>
+    conj (stored_power_is_attested_power sn p e subs) (floor_counts_each_attester_once keqb gk ord sn p e subs)).
+Qed.
+Print Assumptions ten_percent_floor_counts_each_attester_once.
+
+Theorem whoever_sent_evidence_is_not_jailed_by_prune :
+  forall (K : Type) (keqb : K -> K -> bool) (gk : Z -> Z -> K) (ord : list (@group K) -> list (@group K))
+         (sn : snapshot) (public error : bool) (subs : list evidence) (v : val),
+  In v (map ev_val subs) -> ~ In v (prune_calls keqb gk ord sn (msg_of_submissions public error subs)).
+Proof. exact (fun K keqb gk ord => submitter_not_called keqb gk ord). Qed.
+Print Assumptions whoever_sent_evidence_is_not_jailed_by_prune.
